@@ -8,7 +8,10 @@
 (* atomically to  map ; a return is consumable only if the operation has   *)
 (* been linearised and produced exactly the logged result; an automatic    *)
 (* removal (eviction / expiration, logged from inside the table            *)
-(* computation) is consumable only if the map holds that value.            *)
+(* computation) takes effect at a silent step AutoLin between the report   *)
+(* and the next record of the reporting goroutine (the removal is published*)
+(* when the computation that called the handler ends) and only if the map  *)
+(* holds that value.                                                       *)
 (* The history is linearizable iff TLC can consume the whole trace:        *)
 (* acceptance is the high-water mark of the trace position (TLC register   *)
 (* 1), checked by the POSTCONDITION.                                       *)
@@ -24,11 +27,11 @@ NIL == -1
 Clients == {Trace[j].c : j \in DOMAIN Trace}
 KeysT == {Trace[j].k : j \in DOMAIN Trace}
 
-VARIABLES l, map, pend
-vars == <<l, map, pend>>
+VARIABLES l, map, pend, pa
+vars == <<l, map, pend, pa>>
 None == [op |-> "none"]
 
-Init == l = 1 /\ map = [k \in KeysT |-> NIL] /\ pend = [c \in Clients |-> None]
+Init == l = 1 /\ map = [k \in KeysT |-> NIL] /\ pend = [c \in Clients |-> None] /\ pa = {}
 
 \* sequential semantics: [m, rv, rok, ok]  (ok = FALSE: this operation cannot take effect in this state)
 Apply(e, m) ==
@@ -60,7 +63,9 @@ Apply(e, m) ==
                             [m |-> [k \in DOMAIN m |-> NIL], rv |-> NIL, rok |-> 0, ok |-> TRUE]
          [] OTHER -> [m |-> m, rv |-> NIL, rok |-> 0, ok |-> TRUE]
 
-More == l <= Len(Trace)
+\* line l may be consumed only if no reported automatic removal has to take effect before it
+Open == l <= Len(Trace)
+More == Open /\ \A a \in pa : a.bi # l
 \* C09 inside the search: a loaded value may be installed only if no write, invalidation or automatic removal of the
 \* key took effect since the load STARTED (the driver logs "ldstart" from inside the loader, which runs after the
 \* in-flight record was created) - such loads are marked dirty.  Only the caller that ran the loader installs.
@@ -69,25 +74,25 @@ Dirty(pd, ks, except) == [c \in DOMAIN pd |-> IF c # except /\ pd[c] # None /\ p
 Call == /\ More /\ Trace[l].t = "call"
         /\ pend[Trace[l].c] = None
         /\ pend' = [pend EXCEPT ![Trace[l].c] = [op |-> Trace[l].op, lin |-> FALSE, rv |-> NIL, rok |-> 0, inst |-> FALSE, miss |-> FALSE, dirty |-> FALSE, started |-> FALSE, k |-> Trace[l].k, ri |-> Trace[l].ri]]
-        /\ l' = l + 1 /\ UNCHANGED map
+        /\ l' = l + 1 /\ UNCHANGED <<map, pa>>
 
 \* the return record carries what the callback saw / did, so the operation is applied with the return's fields;
 \* every call record carries ri, the position of its return record (filled in by the runner)
-Lin(c) == /\ More /\ Trace[l].t # "call"
+Lin(c) == /\ Open /\ Trace[l].t # "call"
           /\ pend[c] # None /\ ~pend[c].lin
           /\ LET a == Apply(Trace[pend[c].ri], map)
              IN /\ a.ok
                 /\ map' = a.m
                 /\ pend' = Dirty([pend EXCEPT ![c].lin = TRUE, ![c].rv = a.rv, ![c].rok = a.rok, ![c].miss = (map[Trace[pend[c].ri].k] = NIL)],
                                  IF a.m # map THEN (IF Trace[pend[c].ri].op = "clr" THEN KeysT ELSE {Trace[pend[c].ri].k}) ELSE {}, c)
-          /\ UNCHANGED l
+          /\ UNCHANGED <<l, pa>>
 
 \* second linearisation point of a loader-backed Get that missed: the loaded value is installed unless it was superseded
-Install(c) == /\ More /\ Trace[l].t # "call"
+Install(c) == /\ Open /\ Trace[l].t # "call"
               /\ pend[c] # None /\ pend[c].lin /\ pend[c].op = "ldget" /\ ~pend[c].inst /\ pend[c].miss /\ pend[c].started /\ ~pend[c].dirty
               /\ map' = [map EXCEPT ![Trace[pend[c].ri].k] = Trace[pend[c].ri].rv]
               /\ pend' = [pend EXCEPT ![c].inst = TRUE]
-              /\ UNCHANGED l
+              /\ UNCHANGED <<l, pa>>
 
 Ret == /\ More /\ Trace[l].t = "ret"
        /\ LET c == Trace[l].c
@@ -95,26 +100,32 @@ Ret == /\ More /\ Trace[l].t = "ret"
              /\ pend[c].rv = Trace[l].rv /\ pend[c].rok = Trace[l].rok
              /\ (Trace[l].op = "cmp" => Trace[l].nc = 1)
              /\ pend' = [pend EXCEPT ![c] = None]
-       /\ l' = l + 1 /\ UNCHANGED map
+       /\ l' = l + 1 /\ UNCHANGED <<map, pa>>
 
 Auto == /\ More /\ Trace[l].t = "auto"
-        /\ map[Trace[l].k] = Trace[l].v
-        /\ map' = [map EXCEPT ![Trace[l].k] = NIL]
-        /\ pend' = Dirty(pend, {Trace[l].k}, -1)
-        /\ l' = l + 1
+        /\ pa' = pa \cup {[k |-> Trace[l].k, v |-> Trace[l].v, bi |-> Trace[l].bi, at |-> l]}
+        /\ l' = l + 1 /\ UNCHANGED <<map, pend>>
+\* the removal becomes visible: after its report, before the reporting goroutine's next record
+AutoLin(a) == /\ Open /\ (Trace[l].t # "call" \/ a.bi = l)
+              /\ map[a.k] = a.v
+              /\ map' = [map EXCEPT ![a.k] = NIL]
+              /\ pend' = Dirty(pend, {a.k}, -1)
+              /\ pa' = pa \ {a}
+              /\ UNCHANGED l
 
 LdStart == /\ More /\ Trace[l].t = "ldstart"
            /\ pend' = [pend EXCEPT ![Trace[l].c] = IF @ # None /\ @.op = "ldget" THEN [@ EXCEPT !.started = TRUE] ELSE @]
-           /\ l' = l + 1 /\ UNCHANGED map
+           /\ l' = l + 1 /\ UNCHANGED <<map, pa>>
 
 \* a quiescent point between histories: nothing pending; "size" carries the reported size (checked when >= 0)
 Reset == /\ More /\ Trace[l].t = "reset"
          /\ \A c \in Clients : pend[c] = None
+         /\ pa = {}
          /\ (Trace[l].v >= 0 => Cardinality({k \in KeysT : map[k] # NIL}) = Trace[l].v)
          /\ map' = [k \in KeysT |-> NIL]
-         /\ l' = l + 1 /\ UNCHANGED pend
+         /\ l' = l + 1 /\ UNCHANGED <<pend, pa>>
 
-Next == Call \/ Ret \/ Auto \/ Reset \/ LdStart \/ (\E c \in Clients : Lin(c) \/ Install(c))
+Next == Call \/ Ret \/ Auto \/ Reset \/ LdStart \/ (\E c \in Clients : Lin(c) \/ Install(c)) \/ (\E a \in pa : AutoLin(a))
 Spec == Init /\ [][Next]_vars
 
 HighWater == TLCSet(1, IF TLCGet(1) > l THEN TLCGet(1) ELSE l)
